@@ -274,13 +274,19 @@ impl<H: Hasher> MerkleTree<H> {
     /// Checks whether the `proof` for the specified `index` is valid.
     ///
     /// # Errors
-    /// Returns an error if the specified `proof` (which is a Merkle path) does not resolve to the
-    /// specified `root`.
+    /// Returns an error if:
+    /// * The specified `proof` consists of fewer than two nodes (a leaf and its sibling) or of more
+    ///   nodes than a path in a tree with `usize::MAX` leaves could have.
+    /// * The specified `proof` (which is a Merkle path) does not resolve to the specified `root`.
     pub fn verify(
         root: H::Digest,
         index: usize,
         proof: &[H::Digest],
     ) -> Result<(), MerkleTreeError> {
+        if proof.len() < 2 || proof.len() > usize::BITS as usize {
+            return Err(MerkleTreeError::InvalidProof);
+        }
+
         let r = index & 1;
         let mut v = H::merge(&[proof[r], proof[1 - r]]);
 
